@@ -111,7 +111,7 @@ def classify(diags, build):
             if 1 <= l <= len(text_lines):
                 tags |= set(re.findall(r'\bC\d\d\b', text_lines[l - 1]))
         l = line_start - 1
-        while l >= 1 and text_lines[l - 1].strip().startswith('//'):
+        while 1 <= l <= len(text_lines) and text_lines[l - 1].strip().startswith('//'):
             tags |= set(re.findall(r'\bC\d\d\b', text_lines[l - 1]))
             l -= 1
         return tags
